@@ -8,10 +8,13 @@ oracle_c05 — line protocol (keys `k<n>`, values are naturals, clock in unix mi
   `get <k> <remove:0|1> <updateTTL|->`                    → `val:<v>` | `notfound`
   `del <k>` | `clear`                                     → `ok`
   `tick <ms>`                                             → `ok`
+  `cset …` | `cget …` | `cdel <k>` | `cclear`   the same call with an ALREADY CANCELLED context: the in-memory cache
+                   ignores it; the redis-backed one changes nothing and answers `err` (`cclear`: `ok`)
   `fset <k> <v>` | `fget <k>`   (modes rds, both) a key of ANOTHER cache (other prefix, no expiry) on the same redis:
                    → `ok` | `val:<v>` | `notfound`; nothing this cache does (Clear included) touches it
   `stress <mem|rds> <size≤64> <seed> <goroutines 1..32> <opsEach 1..5000> <keys 1..16>` racing callers on a fresh
                    cache in a child process; every schedule must keep the property → `stress-ok`
+  `smoke`          a child WITHOUT the clock hook: ttl 1 s gone after 2.1 s of real time, ttl 600 s still served → `smoke-ok`
   `race <k> <n>`   n concurrent remove-after-get readers of one key → `wins:<0|1>` (every schedule is a sequence
                    of critical sections, so at most the first reader in lock order succeeds)
 In mode `both` a result is `<mem> <rds>`. The configuration is the regenerated `Nv.Gen.C05.cfg`.
@@ -73,6 +76,7 @@ def step (s : OSt) (line : String) : OSt × String :=
     | some mode, some size, some dttl, some clock => (⟨mode, Sys.new clock size dttl, true, []⟩, "ok")
     | _, _, _, _ => ({ s with started := false }, "bad-op")
   | "new" :: _ => ({ s with started := false }, "bad-op")
+  | ["smoke"] => if !s.started then (s, "bad-op") else (s, "smoke-ok")
   | ["stress", b, size, seed, g, n, nk] =>
     if !s.started then (s, "bad-op") else
     match size.toNat?, seed.toNat?, g.toNat?, n.toNat?, nk.toNat? with
@@ -109,6 +113,17 @@ def step (s : OSt) (line : String) : OSt × String :=
         | .both => s!"wins:{wm} wins:{wr}"
       ({ s with sys := r.1 }, out)
     | _, _ => (s, "bad-op")
+  | "cset" :: rest | "cget" :: rest | "cdel" :: rest | "cclear" :: rest =>
+    -- the same call with an already cancelled context
+    if !s.started then (s, "bad-op") else
+    let base := match words line with
+      | w :: _ => (w.drop 1).toString
+      | [] => ""
+    match parseOp (base :: rest) with
+    | some op =>
+      let r := Sys.stepCancelled Nv.Gen.C05.cfg s.sys op
+      ({ s with sys := r.1 }, render s.mode r.2)
+    | none => (s, "bad-op")
   | ws =>
     if !s.started then (s, "bad-op") else
     match parseOp ws with
